@@ -3224,7 +3224,8 @@ class DuckDBGenerator(generator.Generator):
                 func.set("expression", func.this)
                 func.set("this", order_col.this)
 
-        this = self.sql(expression, "this").rstrip(")")
+        # Rendered without its comments, which would follow the closing parenthesis that is removed here
+        this = self.sql(expression.this, comment=False).rstrip(")")
 
         return f"{this}{expression_sql})"
 
